@@ -220,4 +220,7 @@ def _compare(sc, label, so, ss, st_, ao, as_, at):
 
 
 LAYERS.append(Layer("differential", strategy=diff_scenarios, execute=execute_diff, budget={"quick": 2400, "thorough": 80000}))
+from .real import diff_scenarios as _real_diff_scenarios, execute_diff as _real_execute_diff  # noqa: E402
+
+LAYERS.append(Layer("real-backends", strategy=_real_diff_scenarios, execute=_real_execute_diff, budget={"quick": 160, "thorough": 5000}))
 PROP.layers = LAYERS
